@@ -473,11 +473,11 @@ func TestC19(t *testing.T) {
 	}})
 
 	rng := r.Rand("histories")
-	n := r.N(4000, 150000)
+	n := r.N(4000, 100000)
 	for i := 0; i < n; i++ {
 		judge(genC19(rng, "memdb", r.N(30, 60)))
 	}
-	np := r.N(25, 400)
+	np := r.N(25, 300)
 	prng := r.Rand("pebble-histories")
 	for i := 0; i < np; i++ {
 		judge(genC19(prng, "pebble", 25))
